@@ -87,6 +87,7 @@ type Root struct {
 	scanErr       error
 	scanRetry     bool
 	connectErr    error
+	gate          func(scanCtx context.Context)
 }
 
 // NewRoot registers a scripted root under the URL path.
@@ -173,6 +174,20 @@ func (r *Root) SetOutcome(f func(i int, c *core.Change) *core.Entry) {
 func (r *Root) SetProblems(f func(ts []*core.Change) []*core.Problem) {
 	r.mu.Lock()
 	r.problems = f
+	r.mu.Unlock()
+}
+
+// SetTransitionGate installs a function that every Transition call on this
+// root runs before it computes its results. The function receives the context
+// the endpoint was given in its latest Scan call, which is the context of the
+// controller's synchronization loop: a gate can therefore hold the Transition
+// until that loop has been cancelled (Pause, Shutdown). While a gate is
+// installed, Transition reports its scripted results (nil error) even though
+// its own context has been cancelled - the outcome of transitions that were
+// applied, fully or partly, before the cancellation was noticed.
+func (r *Root) SetTransitionGate(f func(scanCtx context.Context)) {
+	r.mu.Lock()
+	r.gate = f
 	r.mu.Unlock()
 }
 
@@ -269,6 +284,9 @@ type Endpoint struct {
 	alpha   bool
 	inst    int
 	cycle   atomic.Int64
+
+	ctxMu   sync.Mutex
+	scanCtx context.Context // context of the latest Scan call
 }
 
 func (e *Endpoint) begin(op string) *Event {
@@ -326,6 +344,9 @@ func count(e *core.Entry, s *core.Snapshot) {
 // Scan implements synchronization.Endpoint.
 func (e *Endpoint) Scan(ctx context.Context, ancestor *core.Entry, full bool) (*core.Snapshot, error, bool) {
 	cyc := int(e.cycle.Add(1))
+	e.ctxMu.Lock()
+	e.scanCtx = ctx
+	e.ctxMu.Unlock()
 	ev := e.root.J.Begin(Event{Op: OpScan, Session: e.session, Root: e.root.Path, Alpha: e.alpha, Instance: e.inst, Cycle: cyc,
 		Full: full, AncestorNil: ancestor == nil, Ancestor: gen.Describe(ancestor)})
 	if e.root.opts.ScanNotPreemptable {
@@ -414,6 +435,22 @@ func (e *Endpoint) Transition(ctx context.Context, transitions []*core.Change) (
 	ev := e.root.J.Begin(Event{Op: OpTransition, Session: e.session, Root: e.root.Path, Alpha: e.alpha, Instance: e.inst,
 		Cycle: int(e.cycle.Load()), Changes: transitions, ChangeDesc: gen.DescribeChanges(transitions)})
 	cancelled := sleepCtx(ctx, e.root.delay(OpTransition))
+	e.root.mu.Lock()
+	gate := e.root.gate
+	e.root.mu.Unlock()
+	gated := false
+	if gate != nil {
+		e.ctxMu.Lock()
+		sc := e.scanCtx
+		e.ctxMu.Unlock()
+		if sc == nil {
+			sc = ctx
+		}
+		gate(sc)
+		// The scripted results stand: they were "applied" before the
+		// cancellation could be noticed.
+		cancelled, gated = false, true
+	}
 	results := make([]*core.Entry, len(transitions))
 	var problems []*core.Problem
 	e.root.mu.Lock()
@@ -444,6 +481,9 @@ func (e *Endpoint) Transition(ctx context.Context, transitions []*core.Change) (
 	e.root.mu.Unlock()
 	e.root.J.Finish(ev, func(x *Event) {
 		x.Cancelled = cancelled
+		if gated {
+			x.Note = "gated"
+		}
 		x.Results = results
 		if terr != nil {
 			x.Err = terr.Error()
